@@ -59,6 +59,7 @@ pub struct Plan {
     /// challenge-ts:   bytes replace the whole first server TSRequest
     /// final-ts:       bytes replace the whole final TSRequest
     /// final-sealed:   bytes replace the pubKeyAuth octet string inside an honest TSRequest
+    /// final-keyed:    bytes are a plaintext the server seals and signs with the real session keys
     /// direct:<entry>  bytes are handed to a parser entry
     pub target: String,
     pub then_close: bool,
@@ -122,6 +123,14 @@ pub fn run_plan(plan: &Plan) -> Observed {
             "final-ts" => {
                 let b = bytes.clone();
                 s.final_hook = Some(Box::new(move |_ctx| FinalAction::Send(b.clone())));
+            }
+            "final-keyed" => {
+                // the server holds the session keys: the bytes are the *plaintext*, sealed and signed correctly
+                let b = bytes.clone();
+                s.final_hook = Some(Box::new(move |ctx| {
+                    let sealed = crate::refs::ntlm::Direction::new(&ctx.session_key, false).wrap(&b);
+                    FinalAction::Send(cssp::build(&TsRequest { version: ctx.ts_version, pub_key_auth: Some(sealed), ..Default::default() }))
+                }));
             }
             _ => {
                 let b = bytes.clone();
@@ -201,6 +210,14 @@ fn structural_ts() -> Vec<(String, Vec<u8>)> {
         }),
         ("length-4GiB".into(), vec![0x30, 0x84, 0xff, 0xff, 0xff, 0xff, 0xa0, 0x03, 0x02, 0x01, 0x06]),
         ("length-2GiB-octets".into(), vec![0x30, 0x0d, 0xa0, 0x03, 0x02, 0x01, 0x06, 0xa3, 0x06, 0x04, 0x84, 0x7f, 0xff, 0xff, 0xff]),
+        ("64-negoTokens".into(), der(&Asn::Seq(vec![Asn::Ctx(0, Box::new(Asn::Int(6))), Asn::Ctx(1, Box::new(Asn::Seq((0..64).map(|_| tok(vec![1, 2, 3])).collect())))]))),
+        ("65-negoTokens-first-valid".into(), der(&Asn::Seq(vec![Asn::Ctx(0, Box::new(Asn::Int(6))), Asn::Ctx(1, Box::new(Asn::Seq((0..65).map(|i| tok(if i == 0 { chal.clone() } else { vec![i as u8] })).collect())))]))),
+        ("300-negoTokens".into(), der(&Asn::Seq(vec![Asn::Ctx(0, Box::new(Asn::Int(6))), Asn::Ctx(1, Box::new(Asn::Seq((0..300).map(|_| tok(vec![])).collect())))]))),
+        ("5000-negoTokens".into(), der(&Asn::Seq(vec![Asn::Ctx(0, Box::new(Asn::Int(6))), Asn::Ctx(1, Box::new(Asn::Seq((0..5000).map(|i| tok(vec![i as u8])).collect())))]))),
+        ("all-fields-present".into(), der(&Asn::Seq(vec![Asn::Ctx(0, Box::new(Asn::Int(6))), Asn::Ctx(1, Box::new(Asn::Seq(vec![tok(chal.clone())]))), Asn::Ctx(2, Box::new(Asn::Octets(vec![7; 30]))), Asn::Ctx(3, Box::new(Asn::Octets(vec![1; 40]))), Asn::Ctx(4, Box::new(Asn::Int(5))), Asn::Ctx(5, Box::new(Asn::Octets(vec![9; 32])))]))),
+        ("fields-reversed".into(), der(&Asn::Seq(vec![Asn::Ctx(3, Box::new(Asn::Octets(vec![1; 40]))), Asn::Ctx(1, Box::new(Asn::Seq(vec![tok(chal.clone())]))), Asn::Ctx(0, Box::new(Asn::Int(6)))]))),
+        ("version-twice".into(), der(&Asn::Seq(vec![Asn::Ctx(0, Box::new(Asn::Int(6))), Asn::Ctx(0, Box::new(Asn::Int(6))), Asn::Ctx(1, Box::new(Asn::Seq(vec![tok(chal.clone())])))]))),
+        ("unknown-context-tag-9".into(), der(&Asn::Seq(vec![Asn::Ctx(0, Box::new(Asn::Int(6))), Asn::Ctx(9, Box::new(Asn::Octets(vec![1; 4]))), Asn::Ctx(1, Box::new(Asn::Seq(vec![tok(chal.clone())])))]))),
         ("not-der".into(), b"HTTP/1.1 400 Bad Request\r\n\r\n".to_vec()),
         ("empty".into(), vec![]),
         ("octet-string-at-top".into(), der(&Asn::Octets(chal))),
@@ -302,6 +319,13 @@ fn all_plans(seed: u64, quick: bool) -> Vec<Plan> {
         let m = Mutant { class: format!("sealed-len-{}", l), bytes: r.bytes(l), at: 0 };
         plans.push(Plan { target: "direct:ntlm.gss_unwrapex".into(), then_close: false, mutant: m.clone() });
         plans.push(Plan { target: "final-sealed".into(), then_close: false, mutant: m });
+    }
+    // correctly sealed plaintexts of every short length and of hostile content (a server that does hold the keys)
+    for l in (0..48).chain([64usize, 91, 270, 294, 295, 1200, 16000].iter().cloned()) {
+        for fill in [0u8, 0xff, 0x30].iter() {
+            plans.push(Plan { target: "final-keyed".into(), then_close: false, mutant: Mutant { class: format!("keyed-plaintext-len-{}", l), bytes: vec![*fill; l], at: 0 } });
+        }
+        plans.push(Plan { target: "final-keyed".into(), then_close: false, mutant: Mutant { class: format!("keyed-plaintext-len-{}", l), bytes: r.bytes(l), at: 0 } });
     }
     plans
 }
